@@ -273,6 +273,12 @@ impl Ctx {
         }
         self.sh.log.ev(line);
     }
+    /// Event-log line that stays out of the twin comparison (an observation of an uninvolved host that
+    /// legitimately depends on what the peers of a victim do, e.g. the sequence number in a peer's datagram).
+    fn log_untwinned(&self, what: impl AsRef<str>) {
+        let t = turmoil::sim_elapsed().map(us).unwrap_or(u64::MAX);
+        self.sh.log.ev(format!("s{} t={} {}.{} [{}] {}", self.sh.step.get(), t, self.sh.names[self.host], self.inc, self.task, what.as_ref()));
+    }
     fn tag(&self, t: &str) {
         self.sh.log.tag(t);
     }
@@ -592,7 +598,13 @@ fn run_ops(cx: Ctx, ops: Vec<Op>, guard: TaskGuard, stream_in: Option<(TcpStream
                             Ok((n, from)) if n == 5 && b[0] == b'D' => {
                                 g.finish(Res::Ok(n), None);
                                 let (fh, finc, num) = (b[1] as usize, b[2], ((b[3] as u64) << 8) | b[4] as u64);
-                                cx.log(format!("udp recv n={num} from {}.{finc} ({from})", cx.sh.names.get(fh).cloned().unwrap_or_default()));
+                                let line = format!("udp recv n={num} from {}.{finc} ({from})", cx.sh.names.get(fh).cloned().unwrap_or_default());
+                                if cx.sh.kinds.get(fh).copied() == Some(Kind::Uninvolved) || cx.sh.kinds[cx.host] != Kind::Uninvolved {
+                                    cx.log(line);
+                                } else {
+                                    // a victim's peer multicasts to the shared group: its counter depends on the fault
+                                    cx.log_untwinned(line);
+                                }
                                 cx.tag("ur");
                                 cx.sh.evs.borrow_mut().push(Ev::UdpRecvd { host: cx.host, inc: cx.inc, from_host: fh, n: num, step: cx.sh.step.get() });
                             }
@@ -970,18 +982,28 @@ fn gen_scenario(rng: &mut Rng) -> Scenario {
         p.push(Op::Forever { gap: 1 });
     }
     // ---- uninvolved pair ----
+    // u1 is also a member of the multicast group (same group address and port) the victims' UDP phase
+    // joins, and u0 multicasts to it: losing a *victim's* membership (crash, socket drop) must not cost
+    // u1 its own (twin comparison of u1's receipts).
+    let shared_group = rng.chance(3, 4);
     progs[u0 + 1] = vec![
         Op::Spawn { local: true, ops: vec![Op::UdpBind { port: 7101 }, Op::UdpRecv { times: 5000 }] },
         Op::Spawn { local: true, ops: vec![Op::Fs { chunks: 30, sync_every: 2, gap: 1 }] },
         Op::Spawn { local: true, ops: vec![Op::Listen { port: 7100 }, Op::AcceptLoop { serve: vec![Op::Read { buf: 16, times: 3000, gap: 0 }] }] },
         Op::Forever { gap: 2 },
     ];
+    if shared_group {
+        progs[u0 + 1].insert(1, Op::Spawn { local: true, ops: vec![Op::UdpBind { port: V_UDP }, Op::UdpJoin { g: 0 }, Op::UdpRecv { times: 5000 }] });
+    }
     progs[u0] = vec![
         Op::Spawn { local: true, ops: vec![Op::UdpBind { port: 7102 }, Op::UdpSend { host: (u0 + 1) as u8, g: 0, port: 7101, times: 300, gap: rng.range(1, 3) as u8 }] },
         Op::Spawn { local: rng.bool(), ops: vec![Op::Forever { gap: 1 }] },
         Op::Spawn { local: true, ops: vec![Op::Sleep { ticks: rng.range(0, 3) as u8 }, Op::Connect { host: (u0 + 1) as u8, port: 7100 }, Op::Write { len: 8, times: 300, gap: rng.range(1, 2) as u8 }] },
         Op::Forever { gap: 3 },
     ];
+    if shared_group {
+        progs[u0].insert(1, Op::Spawn { local: true, ops: vec![Op::UdpBind { port: 7103 }, Op::UdpSend { host: 255, g: 0, port: V_UDP, times: 300, gap: rng.range(1, 3) as u8 }] });
+    }
     let hosts: Vec<HostSpec> = names.into_iter().zip(progs).map(|((name, kind), ops)| HostSpec { name, kind, ops }).collect();
     let sel = if two_victims && rng.chance(2, 3) { Sel::Regex("^v[0-9]$".into()) } else { Sel::Host(0) };
     let pattern = match rng.below(10) {
@@ -1583,6 +1605,14 @@ impl Property for C04 {
             }
             if blocked_writer_trigger(sc) {
                 f.push("peer_writes_more_than_capacity");
+            }
+            let u_member = sc.hosts.iter().any(|h| h.kind == Kind::Uninvolved && {
+                let mut g = Vec::new();
+                feats(&h.ops, 0, &mut g);
+                g.contains(&"victim_phase_udp_membership")
+            });
+            if u_member && f.contains(&"victim_phase_udp_membership") {
+                f.push("uninvolved_host_shares_multicast_group_with_victim");
             }
             f.sort();
             f.dedup();
